@@ -22,11 +22,11 @@ func init() {
 		ID:    "C14",
 		Level: "exploration",
 		Rule: "E-twin x k: (1) cap(Events) of NewBufferedWatcher(n) == n for n in {0,1,2,4,...,65536} and 0 for NewWatcher; (2) 2-4 measured Watchers with different buffer sizes on the same directories plus 1-4 interfering Watchers doing PRNG Add/Remove/Close/re-create, " +
-			"all fed by one sequential syscall driver; every measured Watcher's stream must equal the translated kernel log (hence each other); (3) a buffered Watcher with no consumer must hold exactly n<=cap distinct events (len(Events)==n) and deliver them intact and in order when drained; and cap+1 IDENTICAL events, each generated only after the previous one was read out of the kernel queue (FIONREAD==0), must all be delivered; (4) a Watcher is closed while its reader is held (verif yield point at the entry of handleEvent, no lock held) between two records of a batch whose next record is the rename of a watched file; a second Watcher created right away gets the same descriptor number and watch descriptors: its kernel marks, WatchList and Write events must be those of its own history. " +
+			"all fed by one sequential syscall driver; every measured Watcher's stream must equal the translated kernel log (hence each other); (3) a buffered Watcher with no consumer must hold exactly n<=cap distinct events (len(Events)==n) and deliver them intact and in order when drained; and cap+1 IDENTICAL events, each generated only after the previous one was read out of the kernel queue (FIONREAD==0), must all be delivered; (4) a Watcher is closed while its reader is held (verif yield point at the entry of handleEvent, no lock held) between two records of a batch whose next record is the rename of a watched file; a second Watcher created right away gets the same descriptor number and watch descriptors: its kernel marks, WatchList and Write events must be those of its own history; (5) a Watcher with a pending overflow error (Events drained, nobody on Errors) is closed while 24 Watchers are being created on other directories: each of those must keep its descriptor, its kernel mark, accept Add and report a change. " +
 			"distinct_nontrivial = distinct (history, watcher configuration) runs with >=1 compared event",
 		Assumptions: []string{"kernel shadow = ground truth, one shadow per measured Watcher", "part (3) polls len(Events); if the count is never reached the goroutine dump decides (reader idle in read(2) => events were dropped), a busy reader is inconclusive"},
 		Batches:     func(t string) int { return map[string]int{"quick": 12, "thorough": 48}[t] },
-		MustObserve: []string{"capacities_checked", "measured_watchers", "interfering_watcher_actions", "absorb_cases", "events_received", "fd_reuse_cases"},
+		MustObserve: []string{"capacities_checked", "measured_watchers", "interfering_watcher_actions", "absorb_cases", "events_received", "fd_reuse_cases", "overflow_neighbour_cases"},
 		Run:         runC14,
 	})
 }
@@ -63,6 +63,17 @@ func runC14(c *core.Ctx) {
 		dir, done := caseDir(c, 4000+i)
 		c14FdReuse(c, rng, dir, i)
 		done()
+	}
+	if c.Batch%2 == 1 {
+		for i := 0; i < 2; i++ {
+			rng, ok := c.CaseRng(5000+i, "overflow error pending at Close, neighbours being created")
+			if !ok {
+				continue
+			}
+			dir, done := caseDir(c, 5000+i)
+			c14OverflowNeighbours(c, rng, dir, i)
+			done()
+		}
 	}
 	for i := 0; i < m; i++ {
 		rng, ok := c.CaseRng(3000+i, "absorb identical events")
@@ -601,4 +612,127 @@ func c14FdReuse(c *core.Ctx, rng *rand.Rand, dir string, idx int) {
 		c.Violate("other-watcher-lost-a-watch-when-one-was-closed", fmt.Sprintf("Watcher A (buffer %d, %d watched files) was closed while its reader was between two records (the next: rename of its watch #%d); Watcher B, created right after (same descriptor number: %v), added %d files + 1 directory and then has %d kernel marks, WatchList of %d, and delivered no Write for %v",
 			bufA, nA, k+1, sameNumber, len(bf), len(marks), len(l), missing), map[string]interface{}{"bufA": bufA, "nA": nA, "k": k})
 	}
+}
+
+// c14OverflowNeighbours: a Watcher whose queue overflowed (Events drained, the overflow error pending, nobody on
+// Errors) is closed while other Watchers are being created on other directories. Whatever the closing Watcher
+// does with its descriptor, the new Watchers must be intact: still an inotify descriptor, their kernel mark in
+// place, Add works, a change is reported, nothing on Errors.
+func c14OverflowNeighbours(c *core.Ctx, rng *rand.Rand, dir string, idx int) {
+	base := filepath.Join(dir, "t")
+	os.MkdirAll(filepath.Join(base, "ov"), 0o755)
+	var sends int64
+	fsnotify.VerifSetHooks(&fsnotify.VerifHooks{Send: func(func() bool) { atomic.AddInt64(&sends, 1) }})
+	defer fsnotify.VerifSetHooks(nil)
+	A, err := fsnotify.NewBufferedWatcher(uint([]int{0, 16}[rng.Intn(2)]))
+	if err != nil {
+		c.Broken(err.Error())
+		return
+	}
+	A.Add(filepath.Join(base, "ov"))
+	var nev int64
+	gate := make(chan struct{})
+	go func() {
+		<-gate
+		for range A.Events {
+			atomic.AddInt64(&nev, 1)
+		}
+	}()
+	mq := maxQueued()
+	for k := 0; k < mq+300; k++ {
+		os.WriteFile(filepath.Join(base, "ov", fmt.Sprint("o", k)), nil, 0o644)
+	}
+	close(gate)
+	reached := false
+	for p := 0; p < 150000; p++ {
+		ne := atomic.LoadInt64(&nev)
+		if ne >= int64(mq) && atomic.LoadInt64(&sends) > ne {
+			reached = true
+			break
+		}
+		time.Sleep(100 * time.Microsecond)
+	}
+	if !reached {
+		A.Close()
+		c.Inconclusive("overflow neighbours: the reader never reached the overflow record")
+		return
+	}
+	c.Count("overflow_neighbour_cases", 1)
+	nB := 24
+	type nb struct {
+		w   *fsnotify.Watcher
+		d   string
+		fd  int
+		err error
+	}
+	bs := make([]*nb, nB)
+	for i := range bs {
+		d := filepath.Join(base, fmt.Sprint("n", i))
+		os.MkdirAll(d, 0o755)
+		bs[i] = &nb{d: d}
+	}
+	start := make(chan struct{})
+	var wg sync.WaitGroup
+	wg.Add(2)
+	go func() {
+		defer wg.Done()
+		<-start
+		for j := rng.Intn(8); j > 0; j-- {
+			runtimeGosched()
+		}
+		A.Close()
+	}()
+	go func() {
+		defer wg.Done()
+		<-start
+		for _, b := range bs {
+			b.w, b.err = fsnotify.NewWatcher()
+			if b.err != nil {
+				continue
+			}
+			b.fd = fsnotify.VerifInotifyFd(b.w)
+			b.err = b.w.Add(b.d)
+		}
+	}()
+	close(start)
+	if ok, dump := core.WithWatchdog(twin.WatchdogTimeout, wg.Wait); !ok {
+		c.Inconclusive("overflow neighbours: Close/NewWatcher did not return: " + hangClass(dump))
+		return
+	}
+	for i, b := range bs {
+		if b.w == nil {
+			c.Violate("other-watcher-broken-when-one-was-closed", fmt.Sprintf("neighbour %d: NewWatcher failed while another Watcher was being closed: %v", i, b.err), nil)
+			return
+		}
+		defer b.w.Close()
+		bad := ""
+		if b.err != nil {
+			bad = fmt.Sprintf("Add = %v", b.err)
+		} else if l, _ := os.Readlink(fmt.Sprintf("/proc/self/fd/%d", b.fd)); l != "anon_inode:inotify" {
+			bad = fmt.Sprintf("its descriptor %d is now %q", b.fd, l)
+		} else if marks, _ := twin.KernelMarks(b.fd); len(marks) != 1 {
+			bad = fmt.Sprintf("it has %d kernel marks, 1 expected", len(marks))
+		} else {
+			p := filepath.Join(b.d, "probe")
+			os.WriteFile(p, nil, 0o644)
+			select {
+			case e, ok := <-b.w.Events:
+				if !ok || e.Name != p {
+					bad = fmt.Sprintf("instead of the Create of its probe it delivered %v (open=%v)", e, ok)
+				}
+			case e := <-b.w.Errors:
+				bad = fmt.Sprintf("it put %v on Errors", e)
+			case <-time.After(twin.WatchdogTimeout):
+				bad = "silent" // with the mark in place and the descriptor intact this cannot be a lost wakeup: inconclusive
+				c.Inconclusive(fmt.Sprintf("overflow neighbours: neighbour %d stayed silent", i))
+				return
+			}
+		}
+		if bad != "" {
+			c.Violate("other-watcher-broken-when-one-was-closed", fmt.Sprintf("a Watcher with a pending overflow error was closed while %d Watchers were being created on other directories: neighbour %d: %s", nB, i, bad), nil)
+			return
+		}
+	}
+	c.Eval(1)
+	c.Distinct("overflow-neighbours", idx, c.Batch)
 }
